@@ -88,7 +88,7 @@ func init() {
 		ex(fr).S.Send(fmt.Sprintf("(assert (and (<= 0 %s) (< %s %d)))", v.term, v.term, n))
 		// concretise eagerly: callers switch on the result
 		for k := int64(0); k < n-1; k++ {
-			if ex(fr).branch(symv{'B', fmt.Sprintf("(= %s %d)", v.term, k)}) {
+			if ex(fr).branch(symv{sort: 'B', term: fmt.Sprintf("(= %s %d)", v.term, k)}) {
 				return int(k)
 			}
 		}
@@ -150,8 +150,9 @@ func init() {
 
 // formatted pieces: either literal text or a symbolic string term.
 type fmtPart struct {
-	lit string
-	sym string // SMT term of sort String when non-empty
+	lit     string
+	sym     string // SMT term of sort String when non-empty
+	fromInt string
 }
 
 func strOfInt(t string) string {
@@ -215,7 +216,7 @@ func fmtArg(fr *frame, verb byte, flags string, a value) fmtPart {
 			}
 			return fmtPart{sym: x.term}
 		case 'I':
-			return fmtPart{sym: strOfInt(x.term)}
+			return fmtPart{sym: strOfInt(x.term), fromInt: x.term}
 		case 'B':
 			return fmtPart{sym: "(ite " + x.term + " \"true\" \"false\")"}
 		}
@@ -292,7 +293,7 @@ func joinParts(parts []fmtPart) fmtPart {
 
 func (p fmtPart) value() value {
 	if p.sym != "" {
-		return symv{'S', p.sym}
+		return symv{sort: 'S', term: p.sym, fromInt: p.fromInt}
 	}
 	return p.lit
 }
@@ -774,7 +775,7 @@ func toJSONTree(fr *frame, t types.Type, v value) value {
 		return out
 	case *types.Slice:
 		if sb, ok := v.(symbytes); ok {
-			return symv{'S', "(str.++ \"b64:\" " + sb.term + ")"}
+			return symv{sort: 'S', term: "(str.++ \"b64:\" " + sb.term + ")"}
 		}
 		s := v.([]value)
 		if s == nil {
@@ -836,7 +837,7 @@ func typeString(t types.Type) string {
 func bytesToString(v value) value {
 	switch x := v.(type) {
 	case symbytes:
-		return symv{'S', x.term}
+		return symv{sort: 'S', term: x.term}
 	case []value:
 		bs := make([]byte, len(x))
 		for i, e := range x {
@@ -928,7 +929,7 @@ func jsonEq(e *Explorer, a, b value) value {
 	if ta == tb {
 		return true
 	}
-	return symv{'B', "(= " + ta + " " + tb + ")"}
+	return symv{sort: 'B', term: "(= " + ta + " " + tb + ")"}
 }
 
 // fromJSONTree materialises a canonical tree as a value of type t.
@@ -1149,7 +1150,7 @@ func init() {
 				// a symbolic string that is not syntactically a token: it may still
 				// be equal to one
 				for _, tk := range ex(fr).jsonToks {
-					if ex(fr).branch(symv{'B', "(= " + d.term + " " + tk.term + ")"}) {
+					if ex(fr).branch(symv{sort: 'B', term: "(= " + d.term + " " + tk.term + ")"}) {
 						tok = tk
 						break
 					}
@@ -1289,12 +1290,12 @@ func deepEq(e *Explorer, a, b value) value {
 	case symbytes:
 		switch y := b.(type) {
 		case symbytes:
-			return eqv(nil, symv{'S', x.term}, symv{'S', y.term})
+			return eqv(nil, symv{sort: 'S', term: x.term}, symv{sort: 'S', term: y.term})
 		case []value:
 			if y == nil {
 				return false
 			}
-			return eqv(nil, symv{'S', x.term}, bytesToString(y))
+			return eqv(nil, symv{sort: 'S', term: x.term}, bytesToString(y))
 		}
 		return false
 	}
@@ -1357,7 +1358,7 @@ func splitN(e *Explorer, s value, sep string, n int, maxParts int) []value {
 			cur = cs[i+1:]
 			continue
 		}
-		if !e.branch(symv{'B', "(str.contains " + ct + " " + smtStr(sep) + ")"}) {
+		if !e.branch(symv{sort: 'B', term: "(str.contains " + ct + " " + smtStr(sep) + ")"}) {
 			return append(parts, cur)
 		}
 		head := e.fresh('S', "split")
@@ -1377,16 +1378,16 @@ func init() {
 		return stringSlice(splitN(ex(fr), args[0], goString(args[1]), -1, 5))
 	}
 	symExternals["strings.HasPrefix"] = func(fr *frame, args []value) value {
-		return symv{'B', "(str.prefixof " + strTerm(args[1]) + " " + strTerm(args[0]) + ")"}
+		return symv{sort: 'B', term: "(str.prefixof " + strTerm(args[1]) + " " + strTerm(args[0]) + ")"}
 	}
 	symExternals["strings.HasSuffix"] = func(fr *frame, args []value) value {
-		return symv{'B', "(str.suffixof " + strTerm(args[1]) + " " + strTerm(args[0]) + ")"}
+		return symv{sort: 'B', term: "(str.suffixof " + strTerm(args[1]) + " " + strTerm(args[0]) + ")"}
 	}
 	symExternals["strings.Contains"] = func(fr *frame, args []value) value {
-		return symv{'B', "(str.contains " + strTerm(args[0]) + " " + strTerm(args[1]) + ")"}
+		return symv{sort: 'B', term: "(str.contains " + strTerm(args[0]) + " " + strTerm(args[1]) + ")"}
 	}
 	symExternals["strings.ReplaceAll"] = func(fr *frame, args []value) value {
-		return symv{'S', "(str.replace_all " + strTerm(args[0]) + " " + strTerm(args[1]) + " " + strTerm(args[2]) + ")"}
+		return symv{sort: 'S', term: "(str.replace_all " + strTerm(args[0]) + " " + strTerm(args[1]) + " " + strTerm(args[2]) + ")"}
 	}
 	symExternals["strings.Join"] = func(fr *frame, args []value) value {
 		el := args[0].([]value)
@@ -1403,7 +1404,7 @@ func init() {
 		if len(el) == 1 {
 			return el[0]
 		}
-		return symv{'S', t + ")"}
+		return symv{sort: 'S', term: t + ")"}
 	}
 	symExternals["strings.Clone"] = func(fr *frame, args []value) value { return args[0] }
 	externals["strings.Clone"] = func(fr *frame, args []value) value { return args[0] }
@@ -1413,20 +1414,20 @@ func init() {
 		return len(parts) - 1
 	}
 	symExternals["strings.Index"] = func(fr *frame, args []value) value {
-		return symv{'I', "(str.indexof " + strTerm(args[0]) + " " + strTerm(args[1]) + " 0)"}
+		return symv{sort: 'I', term: "(str.indexof " + strTerm(args[0]) + " " + strTerm(args[1]) + " 0)"}
 	}
 	symExternals["strings.TrimSpace"] = func(fr *frame, args []value) value {
 		panic(engineUnsupported{"strings.TrimSpace on symbolic text"})
 	}
 	symExternals["strconv.Itoa"] = func(fr *frame, args []value) value {
-		return symv{'S', strOfInt(args[0].(symv).term)}
+		return symv{sort: 'S', term: strOfInt(args[0].(symv).term), fromInt: args[0].(symv).term}
 	}
 	symExternals["strconv.Atoi"] = func(fr *frame, args []value) value {
 		s := strTerm(args[0])
 		e := ex(fr)
 		okc := "(and (>= (str.to_int " + s + ") 0) (<= (str.len " + s + ") 18))"
-		if e.branch(symv{'B', okc}) {
-			return tuple{symv{'I', "(str.to_int " + s + ")"}, iface{}}
+		if e.branch(symv{sort: 'B', term: okc}) {
+			return tuple{symv{sort: 'I', term: "(str.to_int " + s + ")"}, iface{}}
 		}
 		// signed forms ("+5", "-5") and >18 digits are outside the model (stated)
 		e.addPC("(not (str.prefixof \"-\" " + s + "))")
@@ -1439,7 +1440,7 @@ func init() {
 		e := ex(fr)
 		gv := args[0]
 		t := strTerm(gv)
-		if e.branch(symv{'B', "(or (= " + t + " \"\") (= " + t + " \"/\"))"}) {
+		if e.branch(symv{sort: 'B', term: "(or (= " + t + " \"\") (= " + t + " \"/\"))"}) {
 			return tuple{structure{"", ""}, iface{}}
 		}
 		parts := splitN(e, gv, "/", -1, 3)
@@ -1476,7 +1477,7 @@ func init() {
 		b := strTerm(bytesToString(args[1]))
 		src := "(str.++ " + a + " \"|\" " + b + ")"
 		h := ex(fr).hashTerm(src, "0", "999999999999")
-		return symv{'S', "(str.++ \"h\" (str.from_int " + h.term + "))"}
+		return symv{sort: 'S', term: "(str.++ \"h\" (str.from_int " + h.term + "))"}
 	}
 }
 
